@@ -2,6 +2,7 @@ import LP.Props.C20
 import LP.Props.C20Heap
 import LP.Props.C20HeapOrder
 import LP.Props.C20HeapRemove
+import LP.Props.C20HeapRefine
 import LP.Props.C20HSet
 import LP.Props.C20HSetProbe
 import LP.Props.C20HSetRemove
@@ -64,3 +65,6 @@ import LP.Props.C20HSetIntersect
 #print axioms LP.HSet.C20_hset_observers2
 #print axioms LP.Heap.removeLoop_none_left
 #print axioms LP.Heap.C20_heap_remove_all
+#print axioms LP.Heap.heap_step_ok
+#print axioms LP.Heap.C20_heap_refines
+#print axioms LP.Heap.C20_heap_answers
